@@ -790,4 +790,162 @@ Proof.
   cbn [bind] in *. inversion Hmk. reflexivity.
 Qed.
 
+(* ---- chunk structure ---- *)
+Lemma chunks_unfold (bs : bytes) : bs <> [] -> chunks bs = pad32 (firstn 32 bs) :: chunks (skipn 32 bs).
+Proof.
+  intros Hne. rewrite !chunks_group. rewrite (group_unfold 32 bs) by (lia || exact Hne). reflexivity.
+Qed.
+Lemma chunks_small (bs : bytes) : (0 < length bs <= 32)%nat -> chunks bs = [pad32 bs].
+Proof. intros Hl. rewrite chunks_group, group_small by exact Hl. reflexivity. Qed.
+
+Lemma chunks_app_full : forall (cs : list bytes) (q : bytes), Forall (fun c => length c = 32%nat) cs -> (length q <= 32)%nat ->
+  chunks (concat cs ++ q) = cs ++ (match q with [] => [] | _ => [pad32 q] end).
+Proof.
+  induction cs as [|c cs IH]; intros q Hall Hq.
+  - cbn [concat app]. destruct q as [|b q]; [reflexivity|]. apply chunks_small. cbn [length] in *. lia.
+  - inversion Hall as [|? ? Hc Hcs]; subst. cbn [concat]. rewrite <- app_assoc.
+    rewrite chunks_unfold by (destruct c; [discriminate|discriminate]).
+    rewrite firstn_app_exact, skipn_app_exact by exact Hc. rewrite pad32_full by exact Hc.
+    cbn [app]. f_equal. now apply IH.
+Qed.
+
+(* the `while scope > 32` loop: all chunks but the last *)
+Lemma rfc_spec : forall fuel (B sfx : bytes), (1 <= length B <= 32 * (fuel + 1))%nat ->
+  exists cs lastp, read_full_chunks fuel (lenN B) (B ++ sfx) = (map RootN cs, lenN lastp, lastp ++ sfx) /\
+    (1 <= length lastp <= 32)%nat /\ B = concat cs ++ lastp /\ Forall (fun c => length c = 32%nat) cs.
+Proof.
+  induction fuel as [|fuel IH]; intros B sfx Hl.
+  - exists [], B. cbn [read_full_chunks map concat app]. repeat split; try lia. constructor.
+  - cbn [read_full_chunks]. destruct (32 <? lenN B) eqn:Hlt.
+    + apply N.ltb_lt in Hlt. unfold lenN in Hlt.
+      assert (read 32 (B ++ sfx) = (firstn 32 B, skipn 32 B ++ sfx)) as ->.
+      { unfold read. change (N.to_nat 32) with 32%nat. rewrite firstn_app, skipn_app.
+        replace (32 - length B)%nat with 0%nat by lia. cbn [firstn skipn]. now rewrite app_nil_r. }
+      destruct (IH (skipn 32 B) sfx) as (cs & lastp & Hr & Hlp & HB & Hcs); [rewrite skipn_length; lia|].
+      assert (lenN B - 32 = lenN (skipn 32 B)) as -> by (unfold lenN; rewrite skipn_length; lia).
+      rewrite Hr. exists (firstn 32 B :: cs), lastp. cbn [map concat]. repeat split; try lia.
+      * rewrite <- app_assoc, <- HB. now rewrite firstn_skipn.
+      * constructor; [rewrite firstn_length; lia|exact Hcs].
+    + apply N.ltb_ge in Hlt. unfold lenN in Hlt. exists [], B. cbn [map concat app]. repeat split; try lia. constructor.
+Qed.
+
+Lemma last_byte_split (cs : list bytes) (lastp p : bytes) (z : byte) :
+  (1 <= length lastp)%nat -> concat cs ++ lastp = p ++ [z] ->
+  exists lp', lastp = lp' ++ [z] /\ p = concat cs ++ lp'.
+Proof.
+  intros Hl E. destruct (exists_last (l := lastp)) as (lp' & z' & ->); [intros ->; cbn in Hl; lia|].
+  rewrite app_assoc in E. apply app_inj_tail in E as [E1 E2]. subst z'. exists lp'. auto.
+Qed.
+
+Lemma deser_bitvector k bs n : wf_ty (TBitvector k) = true -> wf (TBitvector k) (VBits bs) = true ->
+  mk (TBitvector k) (VBits bs) = Ok n -> deser_ok (TBitvector k) (VBits bs) n.
+Proof.
+  intros Hty Hwf Hmk sfx. cbn [wf] in Hwf. cbn [ModelViews.mk] in Hmk. rewrite Hwf in Hmk. cbn [negb] in Hmk. apply N.eqb_eq in Hwf.
+  cbn [wf_ty] in Hty. apply andb_true_iff in Hty as [Hk1 Hkb]. apply N.leb_le in Hk1.
+  rewrite pack_bits_chunks in Hmk. cbn [Spec.ser]. set (B := bits_to_bytes bs) in *.
+  pose proof (bits_to_bytes_lenN bs) as HB. fold B in HB.
+  cbn [ModelCodec.deser_impl]. rewrite HB, Hwf, N.eqb_refl. cbn [negb].
+  assert (lenN B = (k + 7) / 8) as HBk by (rewrite HB, Hwf; reflexivity). rewrite <- HBk.
+  destruct (rfc_spec (N.to_nat (lenN B / 32)) B sfx) as (cs & lastp & Hr & Hlp & HBs & Hcs).
+  { unfold lenN in *. lia. }
+  rewrite Hr. rewrite read_app.
+  destruct (bits_last_group bs) as (a & t & Ebs & Ht & Ha & Hbytes); [unfold lenN in Hwf; lia|]. fold B in Hbytes.
+  destruct (last_byte_split cs lastp _ _ (proj1 Hlp) (eq_trans (eq_sym HBs) Hbytes)) as (lp' & -> & HP).
+  replace (N.to_nat (lenN (lp' ++ [bits_byte t]) - 1)) with (length lp') by (unfold lenN; rewrite app_length; cbn [length]; lia).
+  rewrite nth_error_app2, Nat.sub_diag by lia. cbn [nth_error].
+  assert ((k <? (lenN B - 1) * 8 + bit_length_byte (bits_byte t)) = false) as ->.
+  { apply N.ltb_ge. pose proof (bits_byte_size t (proj2 Ht)) as Hsz.
+    assert (lenN bs = N.of_nat (length a + length t)) as El by (rewrite Ebs; unfold lenN; now rewrite app_length).
+    unfold lenN in *. lia. }
+  assert (cs ++ [pad32 (lp' ++ [bits_byte t])] = chunks B) as Ech.
+  { rewrite HBs. rewrite chunks_app_full by (exact Hcs || lia). destruct (lp' ++ [bits_byte t]) eqn:E; [destruct lp'; discriminate|reflexivity]. }
+  rewrite <- Ech, map_app in Hmk. cbn [map] in Hmk. rewrite Hmk. reflexivity.
+Qed.
+
+Lemma pad32_snoc_zero (l : bytes) : (length l < 32)%nat -> pad32 (l ++ [x00]) = pad32 l.
+Proof.
+  intros Hl. unfold pad32, pad_to, zero_bytes. rewrite app_length. cbn [length].
+  replace (32 - length l)%nat with (S (32 - (length l + 1))) by lia. cbn [repeat]. now rewrite <- app_assoc.
+Qed.
+
+Lemma deser_bitlist l bs n : wf_ty (TBitlist l) = true -> wf (TBitlist l) (VBits bs) = true ->
+  mk (TBitlist l) (VBits bs) = Ok n -> deser_ok (TBitlist l) (VBits bs) n.
+Proof.
+  intros Hty Hwf Hmk sfx. cbn [wf] in Hwf. cbn [ModelViews.mk] in Hmk. apply N.leb_le in Hwf.
+  assert ((l <? lenN bs) = false) as Hlt by (apply N.ltb_ge; exact Hwf). rewrite Hlt in Hmk.
+  rewrite pack_bits_chunks in Hmk. cbn [Spec.ser]. set (B := bits_to_bytes (bs ++ [true])).
+  pose proof (bits_to_bytes_lenN (bs ++ [true])) as HB. fold B in HB. rewrite lenN_app in HB. change (lenN [true]) with 1 in HB.
+  cbn [ModelCodec.deser_impl].
+  assert ((lenN B <? 1) = false) as -> by (apply N.ltb_ge; lia).
+  assert (((l + 7 + 1) / 8 <? lenN B) = false) as -> by (apply N.ltb_ge; lia).
+  destruct (rfc_spec (N.to_nat (lenN B / 32)) B sfx) as (cs & lastp & Hr & Hlp & HBs & Hcs).
+  { unfold lenN in *. lia. }
+  rewrite Hr. rewrite read_app.
+  destruct (delimiter_split bs) as (ba & t & Ht & Hba & HB1 & HB0). fold B in HB1.
+  pose proof (Nat.mod_upper_bound (length bs) 8 ltac:(lia)) as Hm.
+  destruct (last_byte_split cs lastp _ _ (proj1 Hlp) (eq_trans (eq_sym HBs) HB1)) as (lp' & -> & HP).
+  replace (N.to_nat (lenN (lp' ++ [bits_byte (t ++ [true])]) - 1)) with (length lp') by (unfold lenN; rewrite app_length; cbn [length]; lia).
+  rewrite nth_error_app2, Nat.sub_diag by lia. cbn [nth_error].
+  destruct (bits_byte_delim t ltac:(lia)) as (Hnz & Hsz & Hxor). rewrite Hnz, Hsz.
+  assert ((lenN B - 1) * 8 + N.of_nat (length t) = lenN bs) as Ebl.
+  { pose proof (Nat.div_mod (length bs) 8 ltac:(lia)). unfold lenN in *. lia. }
+  rewrite Ebl, Hlt.
+  rewrite firstn_app_exact by reflexivity. rewrite Hxor.
+  assert ((if lenN bs mod 256 =? 0 then map RootN cs else map RootN cs ++ [RootN (pad32 (lp' ++ [bits_byte t]))])
+          = map RootN (chunks (bits_to_bytes bs))) as ->.
+  { rewrite HB0, HP. assert (length lp' <= 31)%nat as Hl31 by (destruct Hlp as [_ Hl2]; rewrite app_length in Hl2; cbn [length] in Hl2; lia).
+    assert (length ba = length (concat cs) + length lp')%nat as Hlba by (rewrite HP, app_length; reflexivity).
+    rewrite (concat_uniform_length 32 cs Hcs) in Hlba.
+    destruct t as [|b0 t0] eqn:Et.
+    - (* no partial last group *)
+      rewrite app_nil_r. cbn [length] in Ht.
+      rewrite chunks_app_full by (exact Hcs || lia).
+      destruct (lenN bs mod 256 =? 0) eqn:E256.
+      + apply N.eqb_eq in E256. assert (lp' = []) as -> by (destruct lp'; [reflexivity|exfalso; cbn [length] in *; unfold lenN in E256; pose proof (Nat.div_mod (length bs) 8 ltac:(lia)); lia]).
+        now rewrite app_nil_r.
+      + apply N.eqb_neq in E256. destruct lp' as [|b1 lp1] eqn:Elp.
+        * exfalso. cbn [length] in *. unfold lenN in E256. pose proof (Nat.div_mod (length bs) 8 ltac:(lia)). lia.
+        * rewrite map_app. cbn [map]. change (bits_byte []) with x00. rewrite pad32_snoc_zero by (cbn [length] in *; lia). reflexivity.
+    - rewrite <- Et in *. assert (length t <> 0)%nat as Htne by (rewrite Et; discriminate).
+      assert ((lenN bs mod 256 =? 0) = false) as -> by (apply N.eqb_neq; unfold lenN; lia).
+      rewrite <- app_assoc. rewrite chunks_app_full by (exact Hcs || (rewrite app_length; cbn [length]; lia)).
+      rewrite map_app. destruct (lp' ++ [bits_byte t]) eqn:E; [destruct lp'; discriminate|reflexivity]. }
+  destruct (fill_to_contents H (map RootN (chunks (bits_to_bytes bs))) (contents_depth (TBitlist l))) as [c|]; [|discriminate].
+  cbn [bind] in *. inversion Hmk. reflexivity.
+Qed.
+
+(* ---- the round trip, every type ---- *)
+Theorem deser_constructed : forall t v n, wf_ty t = true -> wf t v = true -> lenN (ser t v) < 2 ^ 32 ->
+  mk t v = Ok n -> deser_ok t v n.
+Proof.
+  induction t as [k| |nn|l|nn|l|e nn IHe|e l IHe|fs Hfs|b os Hos] using ty_ind'; intros v n0 Hty Hwf Hb Hmk.
+  - now apply deser_uint.
+  - now apply deser_bool.
+  - destruct v; try (cbn [wf] in Hwf; discriminate). now apply deser_bitvector.
+  - destruct v; try (cbn [wf] in Hwf; discriminate). now apply deser_bitlist.
+  - destruct v; try (cbn [wf] in Hwf; discriminate). now apply deser_bytevector.
+  - destruct v; try (cbn [wf] in Hwf; discriminate). now apply deser_bytelist.
+  - destruct v; try (cbn [wf] in Hwf; discriminate).
+    apply deser_vector; auto. intros x nx Hx Hbx Hmx. apply IHe; auto.
+    cbn [wf_ty] in Hty. apply andb_true_iff in Hty as [Hty _]. now apply andb_true_iff in Hty as [Hte _].
+  - destruct v; try (cbn [wf] in Hwf; discriminate).
+    apply deser_list; auto. intros x nx Hx Hbx Hmx. apply IHe; auto.
+    cbn [wf_ty] in Hty. now apply andb_true_iff in Hty as [Hte _].
+  - destruct v; try (cbn [wf] in Hwf; discriminate).
+    apply deser_container; auto.
+  - destruct v; try (cbn [wf] in Hwf; discriminate).
+    apply deser_union; auto.
+Qed.
+
+(* every well-formed value can be constructed, encoded and decoded back to the very same backing *)
+Corollary roundtrip_total : forall t v, wf_ty t = true -> wf t v = true -> lenN (ser t v) < 2 ^ 32 ->
+  exists n, mk t v = Ok n /\ root H n = htr H t v /\
+    (forall sfx, deser_impl t (ser t v ++ sfx) (lenN (ser t v)) = Ok (n, sfx)) /\
+    decode_bytes H t (ser t v) = Ok n.
+Proof.
+  intros t v Hty Hwf Hb. destruct (mk_root H t v Hty Hwf) as (n & Hn & Hr). exists n. split; [exact Hn|]. split; [exact Hr|].
+  pose proof (deser_constructed t v n Hty Hwf Hb Hn) as Hd. split; [exact Hd|].
+  unfold decode_bytes. specialize (Hd []). rewrite app_nil_r in Hd. rewrite Hd. reflexivity.
+Qed.
+
 End WithHash.
